@@ -107,6 +107,100 @@ func runC15(c *Ctx) {
 	}
 	c.Floor("C15-R2", "SetSyncedTo call sites in wallet", nSites, 6)
 	if db := walletFn(c, "C15-R2", "disconnectBlock"); db != nil {
+		// a disconnect is acted on whenever it names the block the wallet remembers at that height: the only ways to report
+		// success without having asked the manager for the stored hash are "the block is above the wallet's tip" (nothing
+		// is known about it). A state test in front of the lookup ("not synced yet: ignore") drops real reorganisations
+		// that happen while the first rescan is running: the transactions of the disconnected block stay confirmed.
+		{
+			q := &PathQuery{Fn: db, Barrier: isCallNamed("BlockHash")}
+			q.EdgeBarrier = func(from *ssa.BasicBlock, si int) bool {
+				if len(from.Instrs) == 0 {
+					return false
+				}
+				iff, ok := from.Instrs[len(from.Instrs)-1].(*ssa.If)
+				if !ok {
+					return false
+				}
+				// the height test b.Height <= SyncedTo().Height: the edge on which the block is above the tip
+				bo, ok := iff.Cond.(*ssa.BinOp)
+				if !ok {
+					return false
+				}
+				fromSynced := func(v ssa.Value) bool {
+					for _, o := range (&Slicer{P: p, ThroughFieldsOfAllocs: true}).Origins(v) {
+						if call, ok := o.(*ssa.Call); ok && calleeShort(&call.Call) == "SyncedTo" {
+							return true
+						}
+						if _, _, base, okf := fieldOf(o); okf {
+							if call, ok := stripConv(base).(*ssa.Call); ok && calleeShort(&call.Call) == "SyncedTo" {
+								return true
+							}
+							if al, ok := stripConv(base).(*ssa.Alloc); ok {
+								for _, st := range storesTo(al) {
+									if call, ok := st.Val.(*ssa.Call); ok && calleeShort(&call.Call) == "SyncedTo" {
+										return true
+									}
+								}
+							}
+						}
+					}
+					return false
+				}
+				sx, sy := fromSynced(bo.X), fromSynced(bo.Y)
+				if sx == sy {
+					return false
+				}
+				op := bo.Op
+				if sx { // normalise to block OP synced
+					switch op {
+					case token.LSS:
+						op = token.GTR
+					case token.LEQ:
+						op = token.GEQ
+					case token.GTR:
+						op = token.LSS
+					case token.GEQ:
+						op = token.LEQ
+					}
+				}
+				switch op {
+				case token.LEQ, token.LSS: // block <= synced: above the tip on the false edge
+					return si == 1
+				case token.GTR, token.GEQ:
+					return si == 0
+				}
+				return false
+			}
+			q.Target = p.nonErrorReturn()
+			hits := q.From(nil)
+			c.Check("C15-R2", "disconnect-has-remembered-hash-lookup", db.Pos(), len(callsNamed(db, "BlockHash")) > 0, "disconnectBlock never asks the manager for the hash it remembers at the disconnected height (undecided)")
+			// one obligation per offending exit, named by the test that guards it, so that a recorded finding about one
+			// of them does not hide another
+			seenExit := map[string]bool{}
+			for _, h := range hits {
+				guard := "unconditional"
+				for d := h.Ins.Block(); d != nil; d = d.Idom() {
+					if len(d.Instrs) == 0 || d == h.Ins.Block() {
+						continue
+					}
+					if iff, ok := d.Instrs[len(d.Instrs)-1].(*ssa.If); ok {
+						inner, _ := unwrapNot(iff.Cond)
+						if call, ok := inner.(*ssa.Call); ok {
+							guard = calleeShort(&call.Call)
+						} else {
+							guard = "test at " + p.Pos(iff.Cond.Pos())
+						}
+						break
+					}
+				}
+				if seenExit[guard] {
+					continue
+				}
+				seenExit[guard] = true
+				c.Check("C15-R2", "disconnect-looks-up-remembered-hash:exit-guarded-by-"+guard, h.Ins.Pos(), false,
+					"disconnectBlock can report success at "+p.Pos(h.Ins.Pos())+" (guard: "+guard+") without having looked the disconnected block up among the hashes it remembers: a reorganisation reported while that path is taken (e.g. before the first rescan finished) is dropped, and the transactions of the disconnected block stay confirmed in a block that is no longer on the best chain")
+			}
+		}
 		for _, ci := range callsOf(db) {
 			call, ok := ci.(*ssa.Call)
 			if !ok || !isSet(call) {
@@ -177,182 +271,7 @@ func runC15(c *Ctx) {
 
 	// ---------- R3 PutSyncedTo ----------
 	if ps := p.Func("waddrmgr", "", "PutSyncedTo"); ps != nil {
-		n := 0
-		for _, b := range ps.Blocks {
-			for si := range b.Succs {
-				f := edgeFactOf(b, si)
-				if f == nil || f.Kind != "nil" || !isResultOfCall(f.V, "FetchBirthdayBlock", 1) {
-					continue
-				}
-				n++
-				// with a birthday block: must pass fetchBlockHash(height-1) before any write
-				q := &PathQuery{Fn: ps, Barrier: func(ins ssa.Instruction) bool {
-					call, ok := ins.(*ssa.Call)
-					if !ok || calleeShort(&call.Call) != "fetchBlockHash" {
-						return false
-					}
-					l := p.linearize(call.Call.Args[1], 0)
-					return l.Konst == -1 && len(l.Coef) == 1 && l.Coef["field:Height"] == 1
-				}}
-				q.Target = func(ins ssa.Instruction, via *ssa.BasicBlock) bool {
-					return isCallNamedAny("addBlockHash", "updateSyncedTo")(ins)
-				}
-				hits := exploreFromBlock(q, b.Succs[si], b)
-				c.Check("C15-R3", "predecessor-check-before-stamp-write", lastPos(b), len(hits) == 0,
-					"with a birthday block set, PutSyncedTo can write the hash index / stamp without having looked up the predecessor hash at height-1")
-			}
-		}
-		c.Floor("C15-R3", "'birthday block set' branch in PutSyncedTo", n, 1)
-		isPredLookup := func(call *ssa.Call) bool {
-			l := p.linearize(call.Call.Args[1], 0)
-			return l.Konst == -1 && len(l.Coef) == 1 && l.Coef["field:Height"] == 1
-		}
-		for _, call := range callsNamed(ps, "fetchBlockHash") {
-			// the predecessor lookup (height-1): its error edge returns an error. Lookups of other heights (the sweep of
-			// stale entries above the stamp) are not predecessor checks
-			if !isPredLookup(call) {
-				continue
-			}
-			for _, b := range ps.Blocks {
-				for si := range b.Succs {
-					f := edgeFactOf(b, si)
-					if f == nil || f.Kind != "nonnil" {
-						continue
-					}
-					ex, ok := f.V.(*ssa.Extract)
-					if !ok || ex.Tuple != ssa.Value(call) {
-						continue
-					}
-					q := &PathQuery{Fn: ps}
-					q.Target = func(ins ssa.Instruction, via *ssa.BasicBlock) bool {
-						if isCallNamedAny("addBlockHash", "updateSyncedTo")(ins) {
-							return true
-						}
-						return p.nonErrorReturn()(ins, via)
-					}
-					hits := exploreFromBlock(q, b.Succs[si], b)
-					c.Check("C15-R3", "unknown-predecessor-refused", lastPos(b), len(hits) == 0, "a stamp whose predecessor is unknown can still be written / reported as success")
-				}
-			}
-		}
-		// writes both the hash index and the stamp on success
-		for _, w := range []string{"addBlockHash", "updateSyncedTo"} {
-			bad := p.mustPassToSuccess(ps, nil, isCallNamed(w), nil)
-			c.Check("C15-R3", "success-writes:"+w, ps.Pos(), bad == nil, "PutSyncedTo can succeed without "+w)
-		}
-		for _, call := range callsNamed(ps, "addBlockHash") {
-			okA := p.linearize(call.Call.Args[1], 0).String() == "+1*field:Height +0"
-			_, f, _, okf := fieldOf(call.Call.Args[2])
-			c.Check("C15-R3", "hash-index-keyed-by-stamp", call.Pos(), okA && okf && f == "Hash", "the recent-hash index entry is not (stamp.Height -> stamp.Hash)")
-		}
-		// the sweep above the stamp: a counter that starts at stamp.Height+1 and steps by one
-		sweepCounter := func(v ssa.Value) (*ssa.Phi, bool) {
-			ph, ok := stripConv(v).(*ssa.Phi)
-			if !ok {
-				return nil, false
-			}
-			init, step := false, false
-			for _, e := range ph.Edges {
-				if p.linearize(e, 0).String() == "+1*field:Height +1" {
-					init = true
-				}
-				if bo, ok := stripConv(e).(*ssa.BinOp); ok && bo.Op == token.ADD && stripConv(bo.X) == ssa.Value(ph) {
-					if k, isK := constInt(bo.Y); isK && k == 1 {
-						step = true
-					}
-				}
-			}
-			return ph, init && step
-		}
-		nStale := 0
-		for _, call := range callsNamed(ps, "deleteBlockHash") {
-			if _, isSweep := sweepCounter(call.Call.Args[1]); isSweep {
-				continue
-			}
-			nStale++
-			okS := false
-			if sc, ok := call.Call.Args[1].(*ssa.Call); ok && calleeShort(&sc.Call) == "staleHeight" {
-				okS = p.linearize(sc.Call.Args[0], 0).String() == "+1*field:Height +0"
-			}
-			c.Check("C15-R3", "prunes-stale-height", call.Pos(), okS, "the pruned hash-index entry is neither staleHeight(stamp.Height) nor an entry above the stamp")
-		}
-		c.Floor("C15-R3", "stale-height prunings in PutSyncedTo", nStale, 1)
-		// no hash stays recorded above the stamp: moving the sync point DOWN (a rollback) must take the hashes of the rolled
-		// back blocks with it. The writer only tests that SOME hash exists at height-1, so a left-over entry lets a later
-		// block be stamped on top of a block of the old chain, and the entries in between are never corrected. Every
-		// successful PutSyncedTo passes a loop that deletes the entries from stamp.Height+1 upwards and is left only when
-		// the lookup at the counter finds nothing (or with an error).
-		{
-			okSweep := false
-			detail := "PutSyncedTo has no loop deleting the hash entries from stamp.Height+1 upwards: after the sync point was moved down, the hashes of the rolled back blocks stay recorded, a block notified for a later height passes the predecessor check on top of a stale hash, and the heights in between keep the old chain's hashes"
-			for _, l := range loopsOf(ps) {
-				var ctr *ssa.Phi
-				for _, ins := range l.Header.Instrs {
-					if v, isV := ins.(ssa.Value); isV {
-						if ph, ok := sweepCounter(v); ok {
-							ctr = ph
-						}
-					}
-				}
-				if ctr == nil {
-					continue
-				}
-				deletes, lookup := 0, (*ssa.Call)(nil)
-				for b := range l.Blocks {
-					for _, ins := range b.Instrs {
-						call, ok := ins.(*ssa.Call)
-						if !ok || len(call.Call.Args) < 2 || stripConv(call.Call.Args[1]) != ssa.Value(ctr) {
-							continue
-						}
-						switch calleeShort(&call.Call) {
-						case "deleteBlockHash":
-							deletes++
-						case "fetchBlockHash":
-							lookup = call
-						}
-					}
-				}
-				if deletes == 0 || lookup == nil {
-					continue
-				}
-				// left only over the lookup's not-found edge, or towards an error return
-				okExits := true
-				for b := range l.Blocks {
-					for si, succ := range b.Succs {
-						if l.Blocks[succ] {
-							continue
-						}
-						if f := edgeFactOf(b, si); f != nil && f.Kind == "nonnil" {
-							if ex, ok := f.V.(*ssa.Extract); ok && ex.Tuple == ssa.Value(lookup) {
-								continue
-							}
-						}
-						q := &PathQuery{Fn: ps, Target: p.nonErrorReturn()}
-						if len(exploreFromBlock(q, succ, b)) > 0 {
-							okExits = false
-							detail = "the sweep of hash entries above the stamp can be left at " + p.Pos(lastPos(b)) + " before it found the first missing height: entries of rolled back blocks above that point stay recorded"
-						}
-					}
-				}
-				// each iteration deletes the entry it found
-				if bad := l.MustPassPerIteration(p, func(ins ssa.Instruction) bool {
-					call, ok := ins.(*ssa.Call)
-					return ok && calleeShort(&call.Call) == "deleteBlockHash"
-				}); bad != "" {
-					okExits = false
-					detail = "an iteration of the sweep above the stamp can skip the deletion (" + bad + ")"
-				}
-				hdr := l.Header
-				if bad := p.mustPassToSuccess(ps, nil, func(ins ssa.Instruction) bool { return ins.Block() == hdr }, nil); bad != nil {
-					okExits = false
-					detail = "PutSyncedTo can succeed at " + p.Pos(bad.Pos()) + " without sweeping the hash entries above the stamp"
-				}
-				if okExits {
-					okSweep = true
-				}
-			}
-			c.Check("C15-R3", "no-hash-left-above-stamp", ps.Pos(), okSweep, detail)
-		}
+		checkPutSyncedTo(c, ps)
 		if sh := p.Func("waddrmgr", "", "staleHeight"); sh != nil {
 			depth, _ := constInPkg(p, "waddrmgr", "MaxReorgDepth")
 			ok := false
@@ -529,13 +448,28 @@ func checkStartupWalk(c *Ctx, rule string) {
 			if !ok {
 				return false
 			}
-			for _, cl := range funcArgs(call) {
-				for _, f := range Closures(cl) {
-					for _, ec := range callsNamed(f, "Equal") {
-						a, b := originKinds(p, ec.Call.Args[0]), originKinds(p, ec.Call.Args[1])
-						if (a["BlockHash"] && b["GetBlockHash"]) || (b["BlockHash"] && a["GetBlockHash"]) {
+			var compares func(f *ssa.Function, depth int) bool
+			compares = func(f *ssa.Function, depth int) bool {
+				for _, ec := range callsNamed(f, "Equal") {
+					a, b := originKinds(p, ec.Call.Args[0]), originKinds(p, ec.Call.Args[1])
+					if (a["BlockHash"] && b["GetBlockHash"]) || (b["BlockHash"] && a["GetBlockHash"]) {
+						return true
+					}
+				}
+				// the comparison loop lifted into a private part of the startup path that the closure calls
+				if depth < 2 {
+					for _, ci := range callsOf(f) {
+						if g := ci.Common().StaticCallee(); g != nil && g != f && len(g.Blocks) > 0 && p.inRegion(sw, g) && compares(g, depth+1) {
 							return true
 						}
+					}
+				}
+				return false
+			}
+			for _, cl := range funcArgs(call) {
+				for _, f := range Closures(cl) {
+					if compares(f, 0) {
+						return true
 					}
 				}
 			}
@@ -1033,4 +967,306 @@ func checkFilteredBlocksAlwaysAnnounced(c *Ctx, rule string) {
 		detail = "filterBlock, asked to notify, can return at " + p.Pos(hits[0].Ins.Pos()) + " without announcing the block: the wallet never sees it, refuses every later block (its predecessor is unknown) and stays behind the backend's tip"
 	}
 	c.Check(rule, "filtered-block-always-announced", fb.Pos(), len(hits) == 0, detail)
+}
+
+// checkPutSyncedTo: the rules on the writer of the sync point, stated over PutSyncedTo and the private parts it may have
+// been split into. Heights inside a part are read in the caller's terms (a part's parameter stands for the argument at
+// its only call site), so `fetchBlockHash(ns, height-1)` in an extracted predecessor check is the same obligation as
+// `fetchBlockHash(ns, bs.Height-1)` in the body.
+func checkPutSyncedTo(c *Ctx, ps *ssa.Function) {
+	p := c.P
+	parts := p.regionTop(ps)
+	lin := func(v ssa.Value) string { return p.linearizeResolved(v).String() }
+	const H = "+1*field:Height"
+	isWrite := isCallNamedAny("addBlockHash", "updateSyncedTo")
+	retTarget := func(ins ssa.Instruction, _ *ssa.BasicBlock) bool { _, ok := ins.(*ssa.Return); return ok }
+	// lookups of the hash index, by the height they ask for
+	type lookup struct {
+		call *ssa.Call
+		fn   *ssa.Function
+		at   string
+	}
+	var lookups []lookup
+	for _, f := range parts {
+		for _, call := range callsNamed(f, "fetchBlockHash") {
+			lookups = append(lookups, lookup{call, f, lin(call.Call.Args[1])})
+		}
+	}
+	isPred := func(ins ssa.Instruction) bool {
+		for _, l := range lookups {
+			if ins == ssa.Instruction(l.call) && l.at == H+" -1" {
+				return true
+			}
+		}
+		return false
+	}
+	// parts (other than PutSyncedTo) that perform the predecessor lookup: a call of one stands for the lookup
+	predParts := map[*ssa.Function]bool{}
+	for _, l := range lookups {
+		if l.at == H+" -1" && l.fn != ps {
+			predParts[l.fn] = true
+		}
+	}
+	callsPredPart := func(ins ssa.Instruction) bool {
+		cc, ok := ins.(*ssa.Call)
+		return ok && predParts[cc.Call.StaticCallee()]
+	}
+	// (a) with a birthday block set, the predecessor is looked up before anything is written
+	n := 0
+	for _, f := range parts {
+		for _, b := range f.Blocks {
+			for si := range b.Succs {
+				ef := edgeFactOf(b, si)
+				if ef == nil || ef.Kind != "nil" || !isResultOfCall(ef.V, "FetchBirthdayBlock", 1) {
+					continue
+				}
+				n++
+				q := &PathQuery{Fn: f, Barrier: func(ins ssa.Instruction) bool { return isPred(ins) || callsPredPart(ins) }}
+				if f == ps {
+					q.Target = func(ins ssa.Instruction, _ *ssa.BasicBlock) bool { return isWrite(ins) }
+				} else {
+					q.Target = retTarget // a part must not come back to its caller without having looked
+				}
+				hits := exploreFromBlock(q, b.Succs[si], b)
+				okPre := len(hits) == 0
+				if f != ps {
+					// ... and PutSyncedTo runs that part before it writes
+					part := f
+					q2 := &PathQuery{Fn: ps, Barrier: func(ins ssa.Instruction) bool { return p.isCallTo(ins, part) }}
+					q2.Target = func(ins ssa.Instruction, _ *ssa.BasicBlock) bool { return isWrite(ins) }
+					if len(q2.From(nil)) > 0 {
+						okPre = false
+					}
+				}
+				c.Check("C15-R3", "predecessor-check-before-stamp-write", lastPos(b), okPre,
+					"with a birthday block set, PutSyncedTo can write the hash index / stamp without having looked up the predecessor hash at height-1")
+			}
+		}
+	}
+	c.Floor("C15-R3", "'birthday block set' branch in PutSyncedTo", n, 1)
+	// (b) a failed predecessor lookup refuses the stamp: neither a write nor a success is reachable from it. Inside a
+	// part the failure travels to the caller as the part's error result; in PutSyncedTo that result is a failure signal
+	failsClosed := func(f *ssa.Function, isSignal func(ssa.Value) bool) (int, bool) {
+		edges, ok := 0, true
+		for _, b := range f.Blocks {
+			for si := range b.Succs {
+				ef := edgeFactOf(b, si)
+				if ef == nil || ef.Kind != "nonnil" || !isSignal(ef.V) {
+					continue
+				}
+				edges++
+				q := &PathQuery{Fn: f}
+				q.Target = func(ins ssa.Instruction, via *ssa.BasicBlock) bool {
+					return isWrite(ins) || p.nonErrorReturn()(ins, via)
+				}
+				if len(exploreFromBlock(q, b.Succs[si], b)) > 0 {
+					ok = false
+				}
+			}
+		}
+		return edges, ok
+	}
+	nPred := 0
+	for _, l := range lookups {
+		if l.at != H+" -1" {
+			continue
+		}
+		nPred++
+		lk := l
+		isErrOf := func(call *ssa.Call) func(ssa.Value) bool {
+			return func(v ssa.Value) bool { return loadIsResultOf(v, call) }
+		}
+		edges, okB := failsClosed(lk.fn, isErrOf(lk.call))
+		if edges == 0 {
+			// no test in the part: the error must be what the part returns
+			okB = false
+			for _, b := range lk.fn.Blocks {
+				if r, isR := b.Instrs[len(b.Instrs)-1].(*ssa.Return); isR {
+					if ei := errResultIndex(lk.fn.Signature); ei >= 0 && ei < len(r.Results) && loadIsResultOf(effectiveResult(r, ei), lk.call) {
+						okB = true
+					}
+				}
+			}
+		}
+		if lk.fn != ps {
+			sites := 0
+			for _, ci := range callsOf(ps) {
+				cs, isCall := ci.(*ssa.Call)
+				if !isCall || !p.isCallTo(cs, lk.fn) {
+					continue
+				}
+				sites++
+				e2, ok2 := failsClosed(ps, isErrOf(cs))
+				if e2 == 0 || !ok2 {
+					okB = false
+				}
+			}
+			if sites == 0 {
+				okB = false
+			}
+		}
+		c.Check("C15-R3", "unknown-predecessor-refused", lk.call.Pos(), okB, "a stamp whose predecessor is unknown can still be written / reported as success")
+	}
+	c.Floor("C15-R3", "predecessor lookups in PutSyncedTo", nPred, 1)
+	// writes both the hash index and the stamp on success
+	for _, w := range []string{"addBlockHash", "updateSyncedTo"} {
+		bad := p.mustPassToSuccess(ps, nil, viaHelpers(w, isCallNamed(w), true), nil)
+		c.Check("C15-R3", "success-writes:"+w, ps.Pos(), bad == nil, "PutSyncedTo can succeed without "+w)
+	}
+	for _, f := range parts {
+		for _, call := range callsNamed(f, "addBlockHash") {
+			okA := lin(call.Call.Args[1]) == H+" +0"
+			_, fld, _, okf := fieldOf(p.resolveParam(call.Call.Args[2]))
+			c.Check("C15-R3", "hash-index-keyed-by-stamp", call.Pos(), okA && okf && fld == "Hash", "the recent-hash index entry is not (stamp.Height -> stamp.Hash)")
+		}
+	}
+	// the sweep above the stamp: a counter that starts at stamp.Height+1 and steps by one
+	sweepCounter := func(v ssa.Value) (*ssa.Phi, bool) {
+		ph, ok := stripConv(v).(*ssa.Phi)
+		if !ok {
+			return nil, false
+		}
+		init, step := false, false
+		for _, e := range ph.Edges {
+			if lin(e) == H+" +1" {
+				init = true
+			}
+			if bo, ok := stripConv(e).(*ssa.BinOp); ok && bo.Op == token.ADD && stripConv(bo.X) == ssa.Value(ph) {
+				if k, isK := constInt(bo.Y); isK && k == 1 {
+					step = true
+				}
+			}
+		}
+		return ph, init && step
+	}
+	nStale := 0
+	for _, f := range parts {
+		for _, call := range callsNamed(f, "deleteBlockHash") {
+			if _, isSweep := sweepCounter(call.Call.Args[1]); isSweep {
+				continue
+			}
+			nStale++
+			okS := false
+			if sc, ok := stripConv(p.resolveParam(call.Call.Args[1])).(*ssa.Call); ok && calleeShort(&sc.Call) == "staleHeight" {
+				okS = lin(sc.Call.Args[0]) == H+" +0"
+			}
+			c.Check("C15-R3", "prunes-stale-height", call.Pos(), okS, "the pruned hash-index entry is neither staleHeight(stamp.Height) nor an entry above the stamp")
+		}
+	}
+	c.Floor("C15-R3", "stale-height prunings in PutSyncedTo", nStale, 1)
+	// no hash stays recorded above the stamp: moving the sync point DOWN (a rollback) must take the hashes of the rolled
+	// back blocks with it. The writer only tests that SOME hash exists at height-1, so a left-over entry lets a later
+	// block be stamped on top of a block of the old chain, and the entries in between are never corrected. Every
+	// successful PutSyncedTo passes a loop that deletes the entries from stamp.Height+1 upwards and is left only when
+	// the lookup at the counter finds nothing (or with an error).
+	{
+		// a lookup of the counter: fetchBlockHash(ctr), or a predicate part `hasX(ns, h) bool { _, err := fetchBlockHash(ns, h); return err == nil }`
+		isPredicateOf := func(g *ssa.Function) bool {
+			if g == nil || len(g.Blocks) == 0 || g.Signature.Results().Len() != 1 || !isBoolType(g.Signature.Results().At(0).Type()) {
+				return false
+			}
+			calls := callsNamed(g, "fetchBlockHash")
+			if len(calls) != 1 {
+				return false
+			}
+			if _, isPrm := stripConv(calls[0].Call.Args[1]).(*ssa.Parameter); !isPrm {
+				return false
+			}
+			for _, b := range g.Blocks {
+				if r, ok := b.Instrs[len(b.Instrs)-1].(*ssa.Return); ok {
+					bo, isBo := r.Results[0].(*ssa.BinOp)
+					if !isBo || bo.Op != token.EQL || !isNilConst(bo.Y) || !loadIsResultOf(bo.X, calls[0]) {
+						return false
+					}
+				}
+			}
+			return true
+		}
+		okSweep := false
+		detail := "PutSyncedTo has no loop deleting the hash entries from stamp.Height+1 upwards: after the sync point was moved down, the hashes of the rolled back blocks stay recorded, a block notified for a later height passes the predecessor check on top of a stale hash, and the heights in between keep the old chain's hashes"
+		for _, f := range parts {
+			for _, l := range loopsOf(f) {
+				var ctr *ssa.Phi
+				for _, ins := range l.Header.Instrs {
+					if v, isV := ins.(ssa.Value); isV {
+						if ph, ok := sweepCounter(v); ok {
+							ctr = ph
+						}
+					}
+				}
+				if ctr == nil {
+					continue
+				}
+				deletes := 0
+				var lookup, predicate *ssa.Call
+				for b := range l.Blocks {
+					for _, ins := range b.Instrs {
+						call, ok := ins.(*ssa.Call)
+						if !ok || len(call.Call.Args) < 2 || stripConv(call.Call.Args[1]) != ssa.Value(ctr) {
+							continue
+						}
+						switch {
+						case calleeShort(&call.Call) == "deleteBlockHash":
+							deletes++
+						case calleeShort(&call.Call) == "fetchBlockHash":
+							lookup = call
+						case isPredicateOf(call.Call.StaticCallee()):
+							predicate = call
+						}
+					}
+				}
+				if deletes == 0 || (lookup == nil && predicate == nil) {
+					continue
+				}
+				// left only over the lookup's not-found edge, or towards an error return
+				okExits := true
+				for b := range l.Blocks {
+					for si, succ := range b.Succs {
+						if l.Blocks[succ] {
+							continue
+						}
+						if ef := edgeFactOf(b, si); ef != nil {
+							if ef.Kind == "nonnil" && lookup != nil {
+								if ex, ok := ef.V.(*ssa.Extract); ok && ex.Tuple == ssa.Value(lookup) {
+									continue
+								}
+							}
+							if ef.Kind == "false" && predicate != nil && ef.V == ssa.Value(predicate) {
+								continue
+							}
+						}
+						q := &PathQuery{Fn: f, Target: p.nonErrorReturn()}
+						if len(exploreFromBlock(q, succ, b)) > 0 {
+							okExits = false
+							detail = "the sweep of hash entries above the stamp can be left at " + p.Pos(lastPos(b)) + " before it found the first missing height: entries of rolled back blocks above that point stay recorded"
+						}
+					}
+				}
+				// each iteration deletes the entry it found
+				if bad := l.MustPassPerIteration(p, func(ins ssa.Instruction) bool {
+					call, ok := ins.(*ssa.Call)
+					return ok && calleeShort(&call.Call) == "deleteBlockHash"
+				}); bad != "" {
+					okExits = false
+					detail = "an iteration of the sweep above the stamp can skip the deletion (" + bad + ")"
+				}
+				hdr := l.Header
+				if bad := p.mustPassToSuccess(f, nil, func(ins ssa.Instruction) bool { return ins.Block() == hdr }, nil); bad != nil {
+					okExits = false
+					detail = fnName(f) + " can succeed at " + p.Pos(bad.Pos()) + " without sweeping the hash entries above the stamp"
+				}
+				if f != ps {
+					part := f
+					if bad := p.mustPassToSuccess(ps, nil, func(ins ssa.Instruction) bool { return p.isCallTo(ins, part) }, nil); bad != nil {
+						okExits = false
+						detail = "PutSyncedTo can succeed at " + p.Pos(bad.Pos()) + " without sweeping the hash entries above the stamp"
+					}
+				}
+				if okExits {
+					okSweep = true
+				}
+			}
+		}
+		c.Check("C15-R3", "no-hash-left-above-stamp", ps.Pos(), okSweep, detail)
+	}
 }
